@@ -1164,4 +1164,38 @@ theorem getD_map_polyArea (ps : List Poly) (i : Nat) (S : Poly) (h : ps[i]? = so
     (ps.map polyArea).getD i 0 = polyArea S := by
   rw [List.getD_eq_getElem?_getD, List.getElem?_map, h]; rfl
 
+/-! ### 9. any order of the cells -/
+
+theorem sumOv_congr {α β : Type} (f g : α → β → Option Rat) (c : α) (ds : List β)
+    (h : ∀ d ∈ ds, f c d = g c d) : sumOv f c ds = sumOv g c ds := by
+  induction ds with
+  | nil => rfl
+  | cons d ds ih =>
+    have ih' := ih (fun d' hd' => h d' (List.mem_cons_of_mem _ hd'))
+    simp only [sumOv, ov, h d List.mem_cons_self, ih']
+
+theorem sumOv_perm {α β : Type} (f : α → β → Option Rat) (c : α) (ds ds' : List β) (h : ds.Perm ds') :
+    sumOv f c ds = sumOv f c ds' := by
+  induction h with
+  | nil => rfl
+  | cons x _ ih => simp only [sumOv, ih]
+  | swap x y l => simp only [sumOv]; ring
+  | trans _ _ ih1 ih2 => rw [ih1, ih2]
+
+theorem sumOvL_congr {α β : Type} (f g : α → β → Option Rat) (d : β) (cs : List α)
+    (h : ∀ c ∈ cs, f c d = g c d) : sumOvL f d cs = sumOvL g d cs := by
+  induction cs with
+  | nil => rfl
+  | cons c cs ih =>
+    have ih' := ih (fun c' hc' => h c' (List.mem_cons_of_mem _ hc'))
+    simp only [sumOvL, ov, h c List.mem_cons_self, ih']
+
+theorem sumOvL_perm {α β : Type} (f : α → β → Option Rat) (d : β) (cs cs' : List α) (h : cs.Perm cs') :
+    sumOvL f d cs = sumOvL f d cs' := by
+  induction h with
+  | nil => rfl
+  | cons x _ ih => simp only [sumOvL, ih]
+  | swap x y l => simp only [sumOvL]; ring
+  | trans _ _ ih1 ih2 => rw [ih1, ih2]
+
 end PorepyVerif.C33
